@@ -88,6 +88,13 @@ func scenarioC03(r *Run) {
 				allow2 = append(allow2, n)
 			}
 		}
+		if c.Chance(1, 5, "stale-allow-list") {
+			// an allow-list that names only channels the table does not have (renamed, removed): whatever
+			// the server makes of it - it may refuse to start - the path must not expose anything
+			allow2 = []string{"gone", "renamed"}[:1+c.Pick(2, "stale-names")]
+			cfg.ServerMayRefuseToStart = true
+			r.Count("stale_allow_lists")
+		}
 		cfg.WsPaths = []WsPath{{Path: "/ws/other", Allow: allow2}}
 		if c.Chance(1, 2, "use-second-path") {
 			wsPath = "/ws/other"
@@ -131,8 +138,15 @@ func scenarioC03(r *Run) {
 	}
 	conns := make([]*LConn, nreq)
 	expectAccepts := make([]int, len(table))
+	if w.ServerStartErr != nil {
+		r.Info["server_refused_to_start"] = truncate(w.ServerStartErr.Error(), 160)
+		r.Count("server_refused_stale_configuration")
+	}
 	for i := range conns {
 		exp := route(table, allow, reqs[i])
+		if w.ServerStartErr != nil {
+			exp = -1 // no server: nothing is routed, nothing may reach a target
+		}
 		lc := &LConn{I: i, TIdx: exp, Expect: exp, Lsn: cfg.Listeners[i], Mode: "active"}
 		lc.PlanA = Partition(c, 8+c.Pick(2000, "app-bytes"), "app-part")
 		lc.PlanT = Partition(c, 1+c.Pick(2000, "tgt-bytes"), "tgt-part")
